@@ -20,7 +20,10 @@ func handlePrograms(fs string) []concfs.Prog {
 		{Op: "H.Read", N: 2}, {Op: "H.ReadAt", N: 2, M: 0}, {Op: "H.Write", Data: "W"}, {Op: "H.WriteAt", Data: "V", N: 0},
 		{Op: "H.Seek", N: 0, M: 0}, {Op: "H.Truncate", N: 1}, {Op: "H.Stat"}, {Op: "H.Sync"}, {Op: "H.Name"}, {Op: "H.Close"},
 	}
-	dirSteps := []fsx.Call{{Op: "H.ReadDir", N: 1}, {Op: "H.Readdirnames", N: 1}, {Op: "H.Stat"}, {Op: "H.Close"}}
+	dirSteps := []fsx.Call{
+		{Op: "H.ReadDir", N: 1}, {Op: "H.Readdirnames", N: 1}, {Op: "H.ReadDir", N: -1}, {Op: "H.Readdirnames", N: -1},
+		{Op: "H.Readdirnames", N: 0}, {Op: "H.Stat"}, {Op: "H.Close"},
+	}
 
 	sh := func(c fsx.Call) fsx.Call { c.Op = "S" + c.Op; return c }
 
@@ -52,6 +55,19 @@ func handlePrograms(fs string) []concfs.Prog {
 	for _, pc := range paths {
 		for _, hs := range fileSteps {
 			out = append(out, concfs.Prog{FS: fs, SharedOpen: &openF, Threads: [][]fsx.Call{{pc}, {sh(hs)}}})
+		}
+	}
+
+	// directory handle call against a path call that changes that directory
+	dirMut := []fsx.Call{
+		{Op: "Mkdir", A: "/d/y", Perm: 0o755}, {Op: "Remove", A: "/d/x"}, {Op: "Rename", A: "/d/x", B: "/d/y"},
+		{Op: "OpenFile", A: "/d/y", Flag: os.O_RDWR | os.O_CREATE | os.O_EXCL, Perm: 0o644}, {Op: "Chmod", A: "/d/x", Perm: 0o600},
+	}
+
+	for _, pc := range dirMut {
+		for _, hs := range dirSteps {
+			out = append(out, concfs.Prog{FS: fs, SharedOpen: &openD, Threads: [][]fsx.Call{{pc}, {sh(hs)}}})
+			out = append(out, concfs.Prog{FS: fs, Threads: [][]fsx.Call{{pc}, {openD, hs, {Op: "H.Close"}}}})
 		}
 	}
 
